@@ -310,10 +310,19 @@ def index_mutation_cases(only=None):
         if kind == "tuple-array-slice":
             a = np.array([0, 1])
             return (a,), lambda: a.__setitem__(Ellipsis, [2, 3])
+        if kind in ("slice-tensor-bound", "slice-0d-array-bound", "tuple-slice-tensor-bound"):
+            # a slice whose bound is an integer-valued 0-d tensor / array (NumPy uses its __index__)
+            i = mg.tensor(0) if "tensor" in kind else np.array(0)
+            sl = slice(i, i + 2) if "tuple" not in kind else (slice(i, i + 2),)
+            return sl, (lambda: i.__iadd__(2)) if "tensor" in kind else (lambda: i.__setitem__(Ellipsis, 2))
+        if kind == "0d-tensor-in-list":
+            i = mg.tensor(0)
+            return [i, 1], lambda: i.__iadd__(2)
         raise KeyError(kind)
 
     for op in ("getitem", "setitem"):
-        for kind in ("int-tensor", "int-array", "list", "bool-array", "bool-tensor", "tuple-array-slice"):
+        for kind in ("int-tensor", "int-array", "list", "bool-array", "bool-tensor", "tuple-array-slice",
+                     "slice-tensor-bound", "slice-0d-array-bound", "tuple-slice-tensor-bound", "0d-tensor-in-list"):
             name = f"{op}:{kind}"
             if only is not None and name != only:
                 continue
@@ -349,7 +358,7 @@ def index_mutation_cases(only=None):
     return out
 
 
-N_INDEX_CASES = 12
+N_INDEX_CASES = 20
 
 
 # ------------------------------------------------------------------ run
